@@ -39,6 +39,7 @@ type Line struct {
 	Rows [][6]int      `json:"rows,omitempty"` // w, b, x, f, wd, g per query point
 	Ccw  int           `json:"ccw"`
 	Fill [][]int       `json:"fill,omitempty"`
+	Fw   [][3]int      `json:"fw,omitempty"` // per contour: interior winding w, part wt due to contours touched by the start point, demanded
 	Open bool          `json:"open,omitempty"`
 	Sf   []int         `json:"sf,omitempty"` // per contour: features of the ray from its start w.r.t. the other contours
 	Cf   []int         `json:"cf,omitempty"` // per contour: 1 open, 2 start is the bottom-right-most vertex
@@ -63,6 +64,7 @@ type Scenario struct {
 	Queries []QExp        `json:"queries"`
 	Ccw     int           `json:"ccw"`            // +1 / -1 orientation of the first contour, 0 = not demanded
 	Fill    [][]int       `json:"fill,omitempty"` // per contour, per rule: 0 / 1 / 2 = not demanded
+	Fw      [][3]int      `json:"fw,omitempty"`
 	Open    bool          `json:"open"`
 	Sf      []int         `json:"sf,omitempty"`
 	Cf      []int         `json:"cf,omitempty"`
@@ -353,7 +355,7 @@ func exec(s *Scenario) (ms []core.Mismatch, red []*Scenario, skipped bool) {
 	}
 	// Filling: always called (it casts rays from the start points of the contours); values compared where demanded
 	if s.Filling && ei.ray {
-		r := &Scenario{SC: s.SC, Path: s.Path, Emb: s.Emb, Fill: s.Fill, Open: s.Open, Sf: s.Sf, Cf: s.Cf, Filling: true}
+		r := &Scenario{SC: s.SC, Path: s.Path, Emb: s.Emb, Fill: s.Fill, Fw: s.Fw, Open: s.Open, Sf: s.Sf, Cf: s.Cf, Filling: true}
 		sf := 0
 		for _, f := range s.Sf {
 			sf |= f
@@ -389,7 +391,14 @@ func exec(s *Scenario) (ms []core.Mismatch, red []*Scenario, skipped bool) {
 			}
 			for j, f := range s.Fill {
 				if f[rule] != 2 && got[j] != (f[rule] == 1) {
-					add("filling:wrong"+wtag, fmt.Sprintf("Filling(%v)[%d] = %v, expected %v; %s", canvas.FillRule(rr), j, got[j], f[rule] == 1, desc), r)
+					// Deviation pattern of the known finding: the start point of sub-path j lies ON another contour, whose
+					// winding around j's interior (wt != 0) is left out ("on the boundary, check if around the interior or
+					// exterior" is a TODO in Filling); everything else is plainly wrong.
+					if j < len(s.Fw) && s.Fw[j][1] != 0 && got[j] == fills(rule, s.Fw[j][0]-s.Fw[j][1]) {
+						add("filling:touched-contour-ignored+start-on-other-contour", fmt.Sprintf("Filling(%v)[%d] = %v, expected %v (interior winding %d, of which %d from the contour(s) on whose boundary the sub-path starts); %s", canvas.FillRule(rr), j, got[j], f[rule] == 1, s.Fw[j][0], s.Fw[j][1], desc), r)
+					} else {
+						add("filling:wrong"+wtag, fmt.Sprintf("Filling(%v)[%d] = %v, expected %v; %s", canvas.FillRule(rr), j, got[j], f[rule] == 1, desc), r)
+					}
 				}
 			}
 		}
@@ -521,7 +530,7 @@ func (r *runner) runGen(o tlc.Opts) {
 				if !latcurve.IsSimilarity(ei.e) || (l.Open && !ei.ray) {
 					continue // the winding over the drawn segments of an open contour depends on the ray direction
 				}
-				s := &Scenario{SC: hdr.SC, Path: l.Path, Emb: ei.e, Queries: qs, Ccw: l.Ccw, Fill: l.Fill, Open: l.Open, Sf: l.Sf, Cf: l.Cf, Filling: true}
+				s := &Scenario{SC: hdr.SC, Path: l.Path, Emb: ei.e, Queries: qs, Ccw: l.Ccw, Fill: l.Fill, Fw: l.Fw, Open: l.Open, Sf: l.Sf, Cf: l.Cf, Filling: true}
 				ms, red, skipped := exec(s)
 				if skipped {
 					atomic.AddInt64(&r.skipped, 1)
@@ -567,6 +576,7 @@ func (d Driver) Run(c *core.Ctx) error {
 	}
 	if c.Thorough() {
 		gen(8, 3, 1, "special", `{"L"}`, 0, 0) // 124 contours: cubics with a horizontal inflection point, cusps at the right-most vertex
+		gen(8, 3, 3, "fill3", `{"L"}`, 0, 0)   // 192 three-contour paths: a sub-path starting on a sibling's boundary, enclosing contour in every list position
 		gen(2, 4, 1, "polyall", `{"L"}`, 0, 0) // all 6561 contours of <=4 points on 3x3
 		gen(4, 5, 1, "polyrand", `{"L"}`, 1200, 0)
 		gen(3, 4, 2, "polyrand", `{"L"}`, 400, 1)
@@ -578,6 +588,7 @@ func (d Driver) Run(c *core.Ctx) error {
 		gen(20, 3, 1, "curves", `{"L","A"}`, 40, 7)
 	} else {
 		gen(8, 3, 1, "special", `{"L"}`, 0, 0) // 124 contours: cubics with a horizontal inflection point, cusps at the right-most vertex
+		gen(8, 3, 3, "fill3", `{"L"}`, 0, 0)   // 192 three-contour paths: a sub-path starting on a sibling's boundary, enclosing contour in every list position
 		gen(2, 3, 1, "polyall", `{"L"}`, 0, 0) // all 729 triangles (incl. degenerate) on 3x3
 		gen(2, 4, 1, "polyrand", `{"L"}`, 400, 0)
 		gen(4, 5, 2, "polyrand", `{"L"}`, 70, 1)
